@@ -99,18 +99,18 @@ def params(rng):
 
 
 def batch(rng, F, loc, spread, n=None, even=False):
-    n = n or rng.choice([8, 9, 12, 15, 20, 25, 30, 45, 49, 60, 81])
+    n = n or rng.choice([8, 9, 12, 15, 20, 25, 30, 45, 49, 60, 81, 3, 4, 5])      # (a handful of rows is a legal batch; three is the least a detect_batch=1 reference can be split from)
     if even:
         return [[2 * ((loc[f] + rng.randint(0, spread)) // 2) for f in range(F)] for _ in range(n)]
     return [[loc[f] + rng.randint(0, spread) for f in range(F)] for _ in range(n)]
 
 
-def history(rng, p, nb):
+def history(rng, p, nb, sizes=None):
     F = p["F"]
     loc = [rng.randint(-5, 5) for _ in range(F)]
     spread = rng.randint(6, 14)
     ev_ = bool(p.get("halves"))
-    script = [("set_reference", batch(rng, F, loc, spread, even=ev_))]
+    script = [("set_reference", batch(rng, F, loc, spread, n=rng.choice(sizes) if sizes else None, even=ev_))]
     for b in range(nb):
         r = rng.random()
         if r < 0.3:
@@ -120,13 +120,13 @@ def history(rng, p, nb):
         elif r < 0.4:
             spread = rng.randint(3, 25)
         if rng.random() < 0.06 and b > 1:
-            script.append(("set_reference", batch(rng, F, loc, spread, even=ev_)))
+            script.append(("set_reference", batch(rng, F, loc, spread, n=rng.choice(sizes) if sizes else None, even=ev_)))
         elif rng.random() < 0.04 and b > 1:
             script.append(("reset",))
         if rng.random() < 0.05:
             script.append(("update", [list(r) for r in script[0][1]]))     # a batch identical to the first reference
         else:
-            script.append(("update", batch(rng, F, loc, spread, even=ev_ and rng.random() < 0.3)))
+            script.append(("update", batch(rng, F, loc, spread, n=rng.choice(sizes) if sizes else None, even=ev_ and rng.random() < 0.3)))
     # some batches arrive as sorted exports (ascending or descending): a batch is a multiset to HDDDM / CDBD
     out = []
     for step in script:
